@@ -143,7 +143,25 @@ func (c *Ctx) lexByFolding() (string, int, bool) {
 			failed = true
 			return fval{tuple: []fval{}}, true
 		}}
-		heap[cell] = fval{fields: map[string]fval{"expectSymbol": {k: constant.MakeBool(false), t: types.Typ[types.Bool]}, "expectMetadata": {k: constant.MakeBool(false), t: types.Typ[types.Bool]}, "publishError": publish}}
+		// the scanner as &LexScanner{} leaves it: every field zero, whatever the fields are; the error callback stands in
+		recvFields := map[string]fval{}
+		if pt, ok := fn.Params[0].Type().Underlying().(*types.Pointer); ok {
+			if st, ok := pt.Elem().Underlying().(*types.Struct); ok {
+				for i := 0; i < st.NumFields(); i++ {
+					fld := st.Field(i)
+					if _, isFunc := fld.Type().Underlying().(*types.Signature); isFunc {
+						recvFields[fld.Name()] = publish
+						continue
+					}
+					z := zeroFval(fld.Type())
+					if !z.known() {
+						return "", 0, false
+					}
+					recvFields[fld.Name()] = z
+				}
+			}
+		}
+		heap[cell] = fval{fields: recvFields}
 		recv := fval{addr: &faddr{base: cell}}
 		if _, isPtr := fn.Params[0].Type().Underlying().(*types.Pointer); !isPtr {
 			return "", 0, false
